@@ -92,34 +92,6 @@ func trunc(s string, n int) string {
 	return s
 }
 
-const customSpec = `{"openapi":"3.0.3","info":{"title":"t","version":"1","x-ogen-custom":{"k":[1,"a",null]}},
-"paths":{"/a/{id}":{"post":{"operationId":"postA","x-ogen-operation-group":"grp",
- "parameters":[{"name":"id","in":"path","required":true,"schema":{"type":"integer","minimum":1,"maximum":9223372036854775807}},
-   {"name":"big","in":"query","schema":{"type":"number","maximum":18446744073709551616}},
-   {"name":"q","in":"query","schema":{"type":"number","default":1.0,"multipleOf":0.5,"maximum":1e3}},
-   {"name":"e","in":"query","schema":{"type":"string","enum":["a","b c","1","true","null"],"default":"b c"}},
-   {"name":"z","in":"query","schema":{"type":"number","minimum":-0,"exclusiveMinimum":true}}],
- "requestBody":{"required":true,"content":{"application/json":{"schema":{"$ref":"#/components/schemas/Obj"},"examples":{"one":{"value":{"zeta":1,"alpha":"x"}}}}}},
- "responses":{"200":{"description":"ok","content":{"application/json":{"schema":{"$ref":"#/components/schemas/Obj"}}}},"default":{"description":"err","content":{"application/json":{"schema":{"type":"object","required":["m"],"properties":{"m":{"type":"string"}}}}}}}}}},
-"components":{"schemas":{
- "Obj":{"type":"object","required":["zeta"],"properties":{
-   "zeta":{"type":"integer","enum":[1,2,3],"default":2},
-   "alpha":{"type":"string","default":"dflt","x-ogen-name":"AlphaField"},
-   "mid":{"type":"boolean","default":false},
-   "num":{"type":"number","enum":[0.5,1.0,1e2]},
-   "nul":{"type":"string","nullable":true,"default":null},
-   "arr":{"type":"array","items":{"type":"string"},"default":["x","y"],"minItems":0},
-   "objd":{"type":"object","properties":{"k":{"type":"integer"}},"default":{"k":1}},
-   "apb":{"type":"object","additionalProperties":true},
-   "apf":{"type":"object","properties":{"p":{"type":"string"}},"additionalProperties":false},
-   "aps":{"type":"object","additionalProperties":{"type":"integer"}},
-   "pp":{"type":"object","patternProperties":{"^x-":{"type":"string"}}},
-   "tm":{"type":"string","format":"date-time","x-ogen-time-format":"2006-01-02T15:04:05Z07:00"},
-   "any":{},
-   "rec":{"$ref":"#/components/schemas/Obj"},
-   "one":{"oneOf":[{"type":"string"},{"type":"integer"}]}},
-  "x-ogen-properties":{"zeta":{"name":"Zed"}}}}}}`
-
 const yaml11Spec = `{"openapi":"3.0.3","info":{"title":"t","version":"1"},"paths":{"/a":{"get":{"operationId":"a",
  "parameters":[{"name":"q","in":"query","schema":{"type":"string","enum":["x","y","no"],"default":"yes"}}],"responses":{"200":{"description":"on"}}}}}}`
 
@@ -145,7 +117,7 @@ func main() {
 		}
 		bases = append(bases, base{name, d, data})
 	}
-	add("custom-unmarshalers", []byte(customSpec))
+	add("custom-unmarshalers", []byte(grammar.CustomSpec))
 	{
 		schemas, _, comps := grammar.Schemas(false)
 		paths := map[string]any{}
@@ -303,9 +275,13 @@ func main() {
 				}
 				r.Eval(int64(len(few)))
 				anyErr := false
-				for k := range out {
+				for k, sis := range out {
 					if !strings.HasSuffix(k, "|") {
 						anyErr = true
+					}
+					if strings.Contains(k, "|PANIC") {
+						r.Violation(map[string]string{"class": "panic-on-invalid-document/" + j.mut.Name, "mutation": j.mut.Name}, len(j.path),
+							kase{Document: j.b.name, Mutation: j.mut.Name + " at " + j.path, Groups: []string{trunc(k, 1500)}, Example: trunc(few[sis[0]].Emit(d.Clone()), 3000)})
 					}
 				}
 				if anyErr {
@@ -314,18 +290,32 @@ func main() {
 					mu.Unlock()
 					r.Nontrivial(j.b.name + j.path + j.mut.Name)
 				}
-				if len(out) <= 1 {
+				panicked := false
+				for k := range out {
+					if strings.Contains(k, "|PANIC") {
+						panicked = true
+					}
+				}
+				if len(out) <= 1 || panicked {
 					continue
 				}
 				// is it the spelling, or does one spelling give different texts from run to run?
 				stable := true
 				for _, sis := range out {
 					st := few[sis[0]]
-					a1, e1 := generate([]byte(st.Emit(d.Clone())), false)
-					a2, e2 := generate([]byte(st.Emit(d.Clone())), false)
-					a3, e3 := generate([]byte(st.Emit(d.Clone())), false)
-					if a1+e1 != a2+e2 || a2+e2 != a3+e3 {
+					seen := map[string]bool{}
+					for k := 0; k < 6; k++ {
+						a, e := generate([]byte(st.Emit(d.Clone())), false)
+						seen[a+"|"+e] = true
+					}
+					if len(seen) > 1 {
 						stable = false
+						var texts []string
+						for t := range seen {
+							texts = append(texts, trunc(t, 500))
+						}
+						sort.Strings(texts)
+						r.Set("run_dependent_example", map[string]any{"document": j.b.name, "mutation": j.mut.Name + " at " + j.path, "spelling": st.String(), "texts": texts})
 					}
 				}
 				if !stable {
